@@ -819,6 +819,118 @@ def probes_history(ctx, scale):
         probe_history(ctx, hist)
 
 
+# ---------------------------------------------------------------------------- probes: histories on one TRACER object
+def _uniform_summary(tr):
+    with np.errstate(all="ignore"):
+        out = []
+        for s in tr.solutions:
+            try:
+                out.append((int(s._reflections), float(s.theta0), float(s.path_length), float(s.tof), U.fl(s.emitted_direction),
+                            U.fl(s.received_direction), [U.fl(p) for p in s._points]))
+            except ValueError as e:
+                out.append((int(s._reflections), float(s.theta0), "ValueError"))
+        return bool(tr.exists), out
+
+
+MOVES = ("augmented", "inplace_then_reassign", "plain")
+
+
+def _move(tr, attr, delta, how):
+    """move an end point of a live tracer through a public route"""
+    d = np.array(delta, dtype=float)
+    if how == "augmented":
+        if attr == "to_point":
+            tr.to_point += d
+        else:
+            tr.from_point += d
+    elif how == "inplace_then_reassign":
+        p = getattr(tr, attr)
+        p += d                                   # the caller edits the array it got from the tracer ...
+        setattr(tr, attr, p)                     # ... and assigns it back
+    else:
+        setattr(tr, attr, np.array(getattr(tr, attr), dtype=float) + d)
+
+
+def probe_tracer_history(ctx, hist):
+    """read .solutions -> move an end point of the SAME tracer object (augmented assignment / in-place edit and re-assignment /
+    plain assignment) -> read again: must equal, exactly, a freshly built tracer on the moved end points (which is judged
+    against image geometry / junction physics by the other probes, and here again for the uniform tracer)."""
+    kind = hist["kind"]
+    key = "tracer-history:%s" % json.dumps(hist, sort_keys=True)
+
+    def fail(what):
+        ctx.fail(key, "%s tracer history (%s of %s by %r): %s; %s" % (kind, hist["how"], hist["attr"], hist["delta"], what, json.dumps(hist)),
+                 {"kind": "tracer_history", "hist": hist})
+    cfg = hist["cfg"]
+    new = json.loads(json.dumps(cfg))
+    key_pt = "to" if hist["attr"] == "to_point" else "from"
+    new[key_pt] = [float(np.float64(a) + np.float64(b)) for a, b in zip(cfg[key_pt], hist["delta"])]
+    with np.errstate(all="ignore"):
+        try:
+            if kind == "uniform":
+                tr = U.uniform_tracer(cfg)
+                tr.from_point = np.array(tr.from_point, dtype=float)
+                tr.to_point = np.array(tr.to_point, dtype=float)
+                first = _uniform_summary(tr)
+                _move(tr, hist["attr"], hist["delta"], hist["how"])
+                got = _uniform_summary(tr)
+                want = _uniform_summary(U.uniform_tracer(new))
+            else:
+                tr = U.layered_tracer(cfg)
+                tr.from_point = np.array(tr.from_point, dtype=float)
+                tr.to_point = np.array(tr.to_point, dtype=float)
+                first = (bool(tr.exists), _solution_summary(tr))
+                _move(tr, hist["attr"], hist["delta"], hist["how"])
+                got = (bool(tr.exists), _solution_summary(tr))
+                want = (bool(U.layered_tracer(new).exists), _solution_summary(U.layered_tracer(new)))
+        except Exception as e:
+            fail("raises %r" % (e,))
+            return
+    if U.fl(getattr(tr, hist["attr"])) != new[key_pt]:
+        fail("the end point of the tracer is %r after the move, expected %r" % (U.fl(getattr(tr, hist["attr"])), new[key_pt]))
+        return
+    if got != want:
+        def brief(x):
+            return (x[0], [(y[2] if kind == "uniform" else y[0]) for y in x[1]])
+        fail("after the move the tracer reports (exists, lengths) %r, a fresh tracer on the moved end points %r%s" % (
+            brief(got), brief(want), " -- the values before the move are still served" if got == first else ""))
+        return
+    if kind == "uniform":
+        probe_uniform_cfg(ctx, new)
+
+
+def probes_tracer_history(ctx, scale):
+    rng = ctx.rng
+    base = {"ice": {"n": 1.5, "lo": -500.0, "hi": 0.0, "above": 1.0, "below": 1.8}, "from": [100.0, 50.0, -100.0], "to": [400.0, 50.0, -200.0], "max_reflections": 2}
+    for how in MOVES:
+        for attr in ("to_point", "from_point"):
+            probe_tracer_history(ctx, {"kind": "uniform", "cfg": base, "attr": attr, "delta": [25.0, -10.0, -30.0], "how": how})
+    for _ in range(ctx.n(24, 500) * scale):
+        cfg = rand_uniform_cfg(rng)
+        if U.uniform_expected(cfg) is None:
+            continue
+        ice = cfg["ice"]
+        attr = rng.choice(["to_point", "from_point"])
+        z = cfg["to" if attr == "to_point" else "from"][2]
+        dz = rng.choice([0.0, 0.0, round(rng.uniform(ice["lo"], ice["hi"]), 1) - z, ice["hi"] + 5.0 - z])
+        delta = [float(rng.choice([0.0, 12.5, -300.0])), float(rng.choice([0.0, 40.0])), float(dz)]
+        if delta == [0.0, 0.0, 0.0]:
+            delta[0] = 1.0
+        hist = {"kind": "uniform", "cfg": cfg, "attr": attr, "delta": delta, "how": rng.choice(MOVES)}
+        ctx.case(key=("tracer_history", json.dumps(hist, sort_keys=True)), sample={"probe": "tracer_history", "hist": hist})
+        probe_tracer_history(ctx, hist)
+    for _ in range(ctx.n(8, 150) * scale):
+        cfg = rand_layered_cfg(rng, ice=rand_stack(rng, kinds=("uniform",)))
+        attr = rng.choice(["to_point", "from_point"])
+        top, bot = cfg["ice"]["layers"][0]["hi"], cfg["ice"]["layers"][-1]["lo"]
+        z = cfg["to" if attr == "to_point" else "from"][2]
+        dz = rng.choice([0.0, round(rng.uniform(max(bot, -1200.0), top), 1) - z])
+        delta = [float(rng.choice([15.0, -220.0])), float(rng.choice([0.0, 60.0])), float(dz)]
+        hist = {"kind": "layered", "cfg": cfg, "attr": attr, "delta": delta, "how": rng.choice(MOVES)}
+        ctx.case(key=("tracer_history", json.dumps(hist, sort_keys=True)), sample={"probe": "tracer_history", "hist": hist})
+        probe_tracer_history(ctx, hist)
+
+
 # ---------------------------------------------------------------------------- entry points
 def run(ctx):
     ctx.rule = ("uniform: random ice (range, indices incl. missing ones), endpoints incl. exactly on / outside the boundaries, coincident, "
@@ -865,6 +977,7 @@ def run(ctx):
     probes_layered(ctx, scale)
     probes_split(ctx, scale)
     probes_history(ctx, scale)
+    probes_tracer_history(ctx, scale)
 
 
 def replay(ctx, obj):
@@ -899,6 +1012,11 @@ def replay(ctx, obj):
         probe_split_exponential(ctx, obj["from"], obj["to"], obj["cuts"])
         for f in ctx.failures:
             print("FAIL:", f["what"][:800])
+    elif k == "tracer_history":
+        probe_tracer_history(ctx, obj["hist"])
+        for f in ctx.failures:
+            print("FAIL:", f["what"][:1200])
+        print("(no failure: the moved tracer and a fresh tracer agree)" if not ctx.failures else "")
     elif k == "history":
         probe_history(ctx, obj["hist"])
         for f in ctx.failures:
